@@ -4,6 +4,7 @@ CONSTANTS
   MaxP = 1
   MaxB = 1
   Ty = "SE3"
+  NumBig = FALSE
   Mut = "clamp_after_damping"
 INVARIANT ColumnPartition
 INVARIANT SplitIsPartition
